@@ -40,6 +40,8 @@ func main() {
 		os.Exit(2)
 	}
 	world.InitBase()
+	stop := startProfile()
+	defer stop()
 	switch os.Args[1] {
 	case "run":
 		os.Exit(cmdRun(os.Args[2:]))
@@ -48,7 +50,9 @@ func main() {
 	case "replay":
 		os.Exit(cmdReplay(os.Args[2:]))
 	case "digest":
-		os.Exit(cmdDigest(os.Args[2:]))
+		rc := cmdDigest(os.Args[2:])
+		stop()
+		os.Exit(rc)
 	case "list-keys":
 		for _, k := range world.Keys() {
 			fmt.Println(k)
